@@ -288,3 +288,97 @@ BOUNDED = [
     {"name": "graph-contracts-all-small-digraphs", "script": "bounded/b16_graph.py"},
     {"name": "link-graphs-through-real-parsers", "script": "bounded/b16_links.py"},
 ]
+
+
+# ------------------------------------------------------------------------------------- add_edge
+AA = z3.ArraySort(I, IA)
+
+
+class Adjacency:
+    """edges_dict (a defaultdict(list)) as two arrays: alen[u] = number of targets of node index u, aarr[u][k] = k-th target."""
+
+    def __init__(self, ctx):
+        self.ctx = ctx
+        self.alen = ctx.fresh("adj.len", IA)
+        self.aarr = ctx.fresh("adj.arr", AA)
+
+    def rec(self):
+        me = self
+
+        def getitem(c, s_, a, k):
+            return AdjView(me, lift_(a[0]))
+
+        return Rec("defaultdict", methods={"__getitem__": getitem})
+
+
+def lift_(x):
+    from pyvc.engine import lift
+    return lift(x)
+
+
+class AdjView(SymList):
+    """The list object edges_dict[u]: reads and writes go through to the adjacency arrays (aliasing preserved)."""
+
+    def __init__(self, adj, u):
+        self.adj, self.u = adj, u
+        self.ctx, self.name, self.esort = adj.ctx, "adj[u]", I
+
+    @property
+    def len(self):
+        return self.adj.alen[self.u]
+
+    @len.setter
+    def len(self, v):
+        self.adj.alen = z3.Store(self.adj.alen, self.u, v)
+
+    @property
+    def arr(self):
+        return self.adj.aarr[self.u]
+
+    @arr.setter
+    def arr(self, v):
+        self.adj.aarr = z3.Store(self.adj.aarr, self.u, v)
+
+
+def wf(nlen, narr, alen, aarr):
+    j1, j2, k1, k2 = z3.Ints("j1 j2 k1 k2")
+    return z3.And(
+        nlen >= 0,
+        z3.ForAll([j1, j2], z3.Implies(z3.And(0 <= j1, j1 < j2, j2 < nlen), narr[j1] != narr[j2]), patterns=[z3.MultiPattern(narr[j1], narr[j2])]),
+        z3.ForAll([u], z3.Implies(z3.And(0 <= u, u < nlen), alen[u] >= 0), patterns=[alen[u]]),
+        z3.ForAll([u], z3.Implies(z3.Or(u < 0, u >= nlen), alen[u] == 0), patterns=[alen[u]]),
+        z3.ForAll([u, k], z3.Implies(z3.And(0 <= u, u < nlen, 0 <= k, k < alen[u]), z3.And(0 <= aarr[u][k], aarr[u][k] < nlen)), patterns=[aarr[u][k]]),
+        z3.ForAll([u, k1, k2], z3.Implies(z3.And(0 <= u, u < nlen, 0 <= k1, k1 < k2, k2 < alen[u]), aarr[u][k1] != aarr[u][k2]), patterns=[z3.MultiPattern(aarr[u][k1], aarr[u][k2])]),
+    )
+
+
+def ae_setup(ctx):
+    nodes = SymList(ctx, "nodes", Node)
+    adj = Adjacency(ctx)
+    source, target = z3.Const("source", Node), z3.Const("target", Node)
+    n0, a0, l0, r0 = nodes.len, nodes.arr, adj.alen, adj.aarr
+    ctx.assume(wf(n0, a0, l0, r0))
+    self = Rec("DirectedGraph", attrs={"nodes": nodes, "edges_dict": adj.rec()})
+    return Setup(env={"self": self, "source": source, "target": target}, data=dict(nodes=nodes, adj=adj, n0=n0, a0=a0, l0=l0, r0=r0, source=source, target=target), watch={"n0": n0})
+
+
+def ae_post(ctx, st, result):
+    d = st.data
+    nodes, adj = d["nodes"], d["adj"]
+    n1, a1, l1, r1 = nodes.len, nodes.arr, adj.alen, adj.aarr
+    n0, a0, l0, r0 = d["n0"], d["a0"], d["l0"], d["r0"]
+    ctx.oblige("post", "representation-invariant-preserved(nodes distinct, adjacency indices in range, no duplicate targets)", wf(n1, a1, l1, r1))
+    ctx.oblige("post", "old-nodes-stay-a-prefix(indices of existing nodes never change)", z3.And(n1 >= n0, n1 <= n0 + 2, z3.ForAll([i], z3.Implies(z3.And(0 <= i, i < n0), a1[i] == a0[i]), patterns=[a0[i]])))
+    si, ti = z3.Ints("si ti")
+    has = lambda L, R, x, y: z3.Exists([k], z3.And(0 <= k, k < L[x], R[x][k] == y))  # noqa: E731
+    ctx.oblige("post", "both-end-points-are-nodes-and-the-edge-is-present", z3.Exists([si, ti], z3.And(0 <= si, si < n1, 0 <= ti, ti < n1, a1[si] == d["source"], a1[ti] == d["target"], has(l1, r1, si, ti))))
+    ctx.oblige("post", "every-old-edge-is-still-present", z3.ForAll([u, v], z3.Implies(z3.And(0 <= u, u < n0, has(l0, r0, u, v)), has(l1, r1, u, v))))
+    ctx.oblige("post", "no-edge-other-than-(source,target)-is-added", z3.ForAll([u, v], z3.Implies(z3.And(0 <= u, u < n1, has(l1, r1, u, v), z3.Not(z3.And(a1[u] == d["source"], a1[v] == d["target"]))), z3.And(u < n0, has(l0, r0, u, v)))))
+
+
+def ae_raises(ctx, st, exc):
+    ctx.oblige("raises", f"never-raises(got {exc.cls}@{exc.origin})", False)
+
+
+UNITS.append(Unit("C16", "jsonargparse._link_arguments:DirectedGraph.add_edge", ae_setup, ae_post, ae_raises, refute_hints=tuple(f"(assert (= nodes.len!0 {k}))" for k in range(0, 4)),
+                  trusted=["edges_dict is a defaultdict(list): indexing a missing key yields an empty list stored under that key"]))
